@@ -22,15 +22,16 @@ class BFSStats:
         self.first_violation_hist = None
 
 
-def explore(build, enabled, canon, check, max_depth, root=(), on_violation=None, max_states=None):
+def explore(build, enabled, canon, check, max_depth, root=(), on_violation=None, max_states=None, check_world=None):
     """Generic BFS. `root` is the initial history (tuple of events).
-    check(build, hist) -> list of (kind, detail). Returns BFSStats."""
+    check(build, hist) -> list of (kind, detail); alternatively check_world(world, hist) is given the
+    already built successor world (for oracles evaluated while replaying). Returns BFSStats."""
     st = BFSStats()
     w0 = build(root)
     seen = {canon(w0)}
     frontier = collections.deque([tuple(root)])
     st.states = 1
-    for kind, detail in check(build, tuple(root)):
+    for kind, detail in (check_world(w0, tuple(root)) if check_world else check(build, tuple(root))):
         if on_violation:
             on_violation(kind, tuple(root), detail)
     exhausted = True
@@ -52,7 +53,7 @@ def explore(build, enabled, canon, check, max_depth, root=(), on_violation=None,
             st.states += 1
             st.by_depth[depth + 1] += 1
             st.max_depth = max(st.max_depth, depth + 1)
-            for kind, detail in check(build, nxt_hist):
+            for kind, detail in (check_world(nxt, nxt_hist) if check_world else check(build, nxt_hist)):
                 if st.first_violation_hist is None:
                     st.first_violation_hist = nxt_hist
                 if on_violation:
